@@ -34,9 +34,23 @@ def call(fn, *a, **k):
     return core.guarded(fn, *a, **k)
 
 
-def hht_record(emd, F, A, edges, p, kind='hht', scale=1.0):
-    Ff = np.array(F, dtype=float)
-    Af = np.array(A, dtype=float)
+def layout(a, k):
+    """the same values in one of three memory layouts: C-contiguous, Fortran-ordered, a strided view (every second
+    element of a larger buffer along the first axis)"""
+    a = np.array(a, dtype=float)
+    if a.ndim < 2 or k % 3 == 0:
+        return a
+    if k % 3 == 1:
+        return np.asfortranarray(a)
+    buf = np.full((2 * a.shape[0],) + a.shape[1:], -7.0)
+    buf[::2] = a
+    return buf[::2]
+
+
+def hht_record(emd, F, A, edges, p, kind='hht', scale=1.0, wide=None):
+    lk = int(abs(float(np.sum(F)) * 3 + float(np.sum(A)) + len(edges)))
+    Ff = layout(F, lk)
+    Af = layout(A, lk + 1)
     e = np.array(edges, dtype=float)
     out = {}
     # the three routines are called on the SAME array objects, in an order that rotates from record to
@@ -53,6 +67,17 @@ def hht_record(emd, F, A, edges, p, kind='hht', scale=1.0):
     out['dense'] = [[-99]] if isinstance(d, str) else (ilist(d * scale) or [[-98]])
     out['sparse'] = [[-99]] if isinstance(s, str) else (ilist(s.toarray() * scale) or [[-98]])
     out['oned'] = [[-99]] if isinstance(o, str) else (ilist(o * scale) or [[-98]])
+    if wide is not None:
+        # ... and afterwards a spectrum over a WIDER frequency range from the very same array objects: samples that were
+        # out of range before must be counted now (a routine that marks them in the caller's arrays would lose them)
+        e2 = np.array(wide, dtype=float)
+        w = {}
+        d2 = call(emd.spectra.hilberthuang, Ff, Af, e2, mode=MODE[p])
+        o2 = call(emd.spectra.hilberthuang_1d, Ff, Af, e2, mode=MODE[p])
+        w['dense'] = [[-99]] if isinstance(d2, str) else (ilist(d2 * scale) or [[-98]])
+        w['sparse'] = w['dense']
+        w['oned'] = [[-99]] if isinstance(o2, str) else (ilist(o2 * scale) or [[-98]])
+        out['_wide'] = w
     return out
 
 
@@ -63,14 +88,21 @@ def gen_hht(args):
         F = [list(Fflat[t * M:(t + 1) * M]) for t in range(T)]
         A = [list(Aflat[t * M:(t + 1) * M]) for t in range(T)]
         r = {'kind': 'hht', 'F': F, 'A': A, 'edges': list(edges), 'p': p}
-        r.update(hht_record(emd, F, A, edges, p))
+        ed = list(edges)
+        wide = [ed[0] - (ed[1] - ed[0])] + ed + [ed[-1] + (ed[-1] - ed[-2])] if (len(ed) >= 2 and (len(recs) % 4 == 0)) else None
+        o = hht_record(emd, F, A, edges, p, wide=wide)
+        w = o.pop('_wide', None)
+        r.update(o)
         recs.append(r)
+        if w is not None:
+            recs.append(dict({'kind': 'hht', 'F': F, 'A': A, 'edges': wide, 'p': p, 'after_narrower_call': 1}, **w))
     return recs
 
 
 def holo_outputs(emd, F1, F2, A2, e1, e2, p, scale=1.0):
     T = len(F1)
-    a = (np.array(F1, float), np.array(F2, float), np.array(A2, float), np.array(e1, float), np.array(e2, float))
+    lk = int(abs(float(np.sum(F1)) * 3 + float(np.sum(A2)) + len(e1)))
+    a = (layout(F1, lk), layout(F2, lk + 1), layout(A2, lk + 2), np.array(e1, float), np.array(e2, float))
     out = {}
     # same array objects for the three calls, order rotating from record to record (see hht_record)
     calls = {'f': lambda: call(emd.spectra.holospectrum, *a, mode=MODE[p], squash_time=False),
